@@ -106,8 +106,13 @@ CLAIMS["C16"] = (
     "Trusted: rustc nightly MIR and constant evaluation, factgen extraction, the accepted-idiom lists in vf/props/c16.py (first-match scans, min() marker, entry API).",
     "DESIGN.md section 3, C16")
 
+CLAIMS["C11"] = (
+    "MIR rules over many_cpus_impl::pal::linux::{platform,cpu_mask} and cpulist: backward slices through closures and their captures for the joins (allowed filter, online file, node membership -> region), call-chain order of the fall-backs for the maxima, forward reachability of panicking extractors from optional-file reads, evaluated string constants for key matching and separators, symbolic linear forms over (group start, group length) for the range arithmetic of emit, inverse-pair recognition in the mask's bit arithmetic",
+    "Narrow (was not_applicable until round 3): decides the structural joins and pairings only - reported processors = cpuinfo records whose index passes the allowed-list membership test, id = index; is_active from the same index's online file with absent = online and the public list filtered on it; memory region = key of the node whose member list contains the index with a non-panicking default; maxima are maxima over the possible -> online -> enumerated chain and the node table reads the same source as the region maximum; quota = min(count of reported processors, quota/period) with v2 before v1 and unswapped fields; an optional kernel file's absence never reaches expect/unwrap; cpuinfo keys compared lower-cased against lower-case constants, unreadable bogomips -> None, index-less record skipped; codec: parse splits on the separators emit writes, sorts then de-duplicates, ranges are inclusive, emit groups a sorted unique sequence, consumes exactly the group and never computes an intermediate above the range end; mask: bit position and id are inverse over one constant, insert never narrows, equality pads. One violation on the pinned tree (emit overflows for a run of >= 3 ids ending at u32::MAX) was a genuine defect, reproduced (repro/src/bin/c11.rs) and repaired by a fix: commit. Equality between any parsed text and the inventory, number parsing and the float arithmetic are NOT decided.",
+    "Trusted: rustc nightly MIR and constant evaluation (incl. Display of promoted constants), factgen extraction, the fmt::Arguments template grammar of this toolchain (fail closed when unrecognised), the axiom that ids in a strictly ascending u32 sequence bound start+len by the next element.",
+    "DESIGN.md section 3, C11")
+
 NOT_APPLICABLE = {
-    "C11": "Equality between parsed kernel text and the reported inventory, and an exact codec over the whole u32 range: values all the way down; no structural clause that is both exact and necessary was found (see DESIGN.md C11).",
 }
 
 PENDING = "static check not implemented yet in this round (planned, see DESIGN.md section 5); not claimed until it exists"
